@@ -1,6 +1,10 @@
 #!/bin/bash
 # mutant_batch.sh <out-file> <Cxx> ...   evaluates the sub-agent mutants found in /tmp/mut/<Cxx>-out
 out="$1"; shift
+# freeze the harness sources for the whole batch, so that editing /verif/harness meanwhile is harmless
+snap=/tmp/scratch/harness-snap-$$
+mkdir -p $snap; rsync -a --delete /verif/harness/ $snap/
+export VERIF_HARNESS=$snap
 for pid in "$@"; do
   for n in 1 2; do
     d=/tmp/mut/$pid-out
@@ -14,4 +18,5 @@ for pid in "$@"; do
     /verif/tools/campaign.sh $name $d/m$n.diff quick >> $out 2>&1
   done
 done
+rm -rf $snap
 echo "BATCH DONE" >> $out
